@@ -64,7 +64,9 @@ def _local_trace(frame, event, arg):
     if event == "line":
         sim = ACTIVE
         if sim is not None and not sim.free_running:
-            sim.yield_point(TARGETS[frame.f_code.co_filename], frame.f_lineno)
+            tag = TARGETS[frame.f_code.co_filename]
+            if sim.opcode_tags is None or tag not in sim.opcode_tags:
+                sim.yield_point(tag, frame.f_lineno)
     return _local_trace
 
 
@@ -72,6 +74,73 @@ def _global_trace(frame, event, arg):
     if frame.f_code.co_filename in TARGETS:
         return _local_trace
     return None
+
+
+# Bytecode granularity (a thread switch between two reads of one source line):
+# sys.monitoring INSTRUCTION events on the code objects of chosen target files.
+# (frame.f_trace_opcodes crashes CPython 3.12.1 when set while other threads run
+# the same code; local events are switched only between runs, when no SUT
+# thread is alive.)
+_MON_TOOL = 3
+_mon_codes = {}          # tag -> [code objects]
+_mon_lines = {}          # code -> {offset: line}
+_mon_enabled = set()     # tags currently instrumented
+_mon_ready = False
+
+
+def _collect_codes(module, filename):
+    import types
+    seen = []
+
+    def add(code):
+        if code in seen or code.co_filename != filename:
+            return
+        seen.append(code)
+        for c in code.co_consts:
+            if isinstance(c, types.CodeType):
+                add(c)
+
+    def scan(ns):
+        for v in list(vars(ns).values()):
+            f = getattr(v, "__func__", v)
+            if isinstance(f, types.FunctionType):
+                add(f.__code__)
+            elif isinstance(v, property):
+                for g in (v.fget, v.fset, v.fdel):
+                    if g is not None and hasattr(g, "__code__"):
+                        add(g.__code__)
+            elif isinstance(v, type) and v.__module__ == module.__name__ and ns is module:
+                scan(v)
+    scan(module)
+    return seen
+
+
+def _on_instruction(code, offset):
+    sim = ACTIVE
+    if sim is not None and not sim.free_running and sim.opcode_tags:
+        m = _mon_lines.get(code)
+        if m is not None:
+            sim.yield_point(TARGETS[code.co_filename], m.get(offset, 0), offset + 1)
+
+
+def _set_opcode_tags(tags):
+    """Switch instruction events on for exactly the given file tags."""
+    global _mon_ready
+    tags = set(tags or ())
+    if tags == _mon_enabled:
+        return
+    mon = sys.monitoring
+    if not _mon_ready:
+        mon.use_tool_id(_MON_TOOL, "vf-detsim")
+        mon.register_callback(_MON_TOOL, mon.events.INSTRUCTION, _on_instruction)
+        _mon_ready = True
+    for tag, codes in _mon_codes.items():
+        want = tag in tags
+        if want != (tag in _mon_enabled):
+            for c in codes:
+                mon.set_local_events(_MON_TOOL, c, mon.events.INSTRUCTION if want else 0)
+    _mon_enabled.clear()
+    _mon_enabled.update(tags)
 
 
 # ---------------------------------------------------------------------------
@@ -109,6 +178,7 @@ class Sim:
         self.stall_prob = 0.0
         self.stall_choices = (0.0005, 0.5, 1.5)
         self.replay_stalls = None       # step -> dt in replay mode
+        self.opcode_tags = None         # set of file tags pre-emptible per bytecode
         self.eager = None               # fault: [poller thread, predicate, stall, delay]
         self.n_eager = 0
 
@@ -144,13 +214,13 @@ class Sim:
         return woke
 
     # -- yield points -------------------------------------------------------
-    def yield_point(self, tag, line):
+    def yield_point(self, tag, line, sub=0):
         if self.atomic:
             return
         lt = self.current
         self.step += 1
         self.ydigest = ((self.ydigest * 1000003) ^ (lt.id * 7919 + tag * 100003
-                                                    + line)) & 0xFFFFFFFFFFFFFFFF
+                                                    + line + sub * 15485863)) & 0xFFFFFFFFFFFFFFFF
         self.clock += self.step_cost
         if self.watch is not None:
             self.watch(self, lt)
@@ -666,6 +736,14 @@ def install(modules, target_files):
         TARGETS[fn] = i + 1
         TARGET_NAMES[i + 1] = os.path.basename(fn)
     for mod in modules:
+        fn = getattr(mod, "__file__", None)
+        if fn in TARGETS:
+            codes = _collect_codes(mod, fn)
+            _mon_codes[TARGETS[fn]] = codes
+            for c in codes:
+                _mon_lines[c] = {off: line for start, end, line in c.co_lines()
+                                 if line is not None for off in range(start, end, 2)}
+    for mod in modules:
         for name, val in list(vars(mod).items()):
             for real, shim in _identity_map():
                 if val is real:
@@ -691,6 +769,7 @@ def begin(sim):
     if ACTIVE is not None:
         raise RuntimeError("nested detsim run")
     sim.attach_driver()
+    _set_opcode_tags(sim.opcode_tags)
     ACTIVE = sim
     sys.settrace(_global_trace)
     return sim
